@@ -60,6 +60,18 @@ impl<D: Trace, T: Trace + Clone> ThunkValue for MemoizedClosureThunk<D, T> {
 	type Output = T;
 
 	fn get(&self) -> Result<Self::Output> {
+		#[cfg(jrsonnet_verif)]
+		crate::verif::emit(
+			"thunk",
+			match &*self.0.borrow() {
+				MemoizedClusureThunkInner::Computed(_) => "hit",
+				MemoizedClusureThunkInner::Errored(_) => "hit_err",
+				MemoizedClusureThunkInner::Pending => "reenter",
+				MemoizedClusureThunkInner::Waiting { .. } => "start",
+			},
+			std::ptr::from_ref(self) as usize,
+			0,
+		);
 		match &*self.0.borrow() {
 			MemoizedClusureThunkInner::Computed(v) => return Ok(v.clone()),
 			MemoizedClusureThunkInner::Errored(e) => return Err(e.clone()),
@@ -76,11 +88,21 @@ impl<D: Trace, T: Trace + Clone> ThunkValue for MemoizedClosureThunk<D, T> {
 			Ok(v) => v,
 			Err(e) => {
 				*self.0.borrow_mut() = MemoizedClusureThunkInner::Errored(e.clone());
+				#[cfg(jrsonnet_verif)]
+				crate::verif::emit("thunk", "fail", std::ptr::from_ref(self) as usize, 0);
 				return Err(e);
 			}
 		};
 		*self.0.borrow_mut() = MemoizedClusureThunkInner::Computed(new_value.clone());
+		#[cfg(jrsonnet_verif)]
+		crate::verif::emit("thunk", "finish", std::ptr::from_ref(self) as usize, 0);
 		Ok(new_value)
+	}
+}
+#[cfg(jrsonnet_verif)]
+impl<D: Trace, T: Trace> Drop for MemoizedClosureThunk<D, T> {
+	fn drop(&mut self) {
+		crate::verif::emit("thunk", "drop", std::ptr::from_ref(self) as usize, 0);
 	}
 }
 
